@@ -216,6 +216,7 @@ type node struct {
 	rc     *rcRec
 	parent int
 	how    string
+	nsock  int // sc: number of listeners configured
 }
 
 type rcRec struct {
@@ -323,7 +324,22 @@ func (c19) Run(t *tape.Tape, cfg sim.Config) (res sim.Result) {
 		if n.kind != "mc" {
 			return true
 		}
-		return observeMC(&res, rt, n, i, after, stdouts, cfg.Class == "tree-sock" && t.Chance(1, 2), t.Chance(1, 3))
+		var sockNode *node
+		if cfg.Class == "tree-sock" && t.Chance(1, 2) {
+			// the context carries one of the TREE's socket configurations (at most 3 listeners)
+			var scs []*node
+			for _, o := range nodes {
+				if o.kind == "sc" && o.nsock > 0 && o.nsock <= 3 {
+					scs = append(scs, o)
+				}
+			}
+			if len(scs) > 0 {
+				sockNode = scs[t.Choose(len(scs))]
+			} else {
+				sockNode = &node{kind: "sc", val: sock.NewConfig().WithTCPListener("127.0.0.1", 0), nsock: 1}
+			}
+		}
+		return observeMC(&res, rt, n, i, after, stdouts, sockNode, t.Chance(1, 3))
 	}
 	for step := 0; step < nsteps && res.Violation == nil; step++ {
 		client := t.Choose(3)
@@ -342,9 +358,10 @@ func (c19) Run(t *tape.Tape, cfg sim.Config) (res sim.Result) {
 		var how string
 		switch p.kind {
 		case "sc":
-			port := 20000 + step
-			how = fmt.Sprintf("WithTCPListener(127.0.0.1,%d)", port)
-			add("sc", p.val.(sock.Config).WithTCPListener("127.0.0.1", port), pi, how)
+			// port 0 (the system chooses: no clashes between worker processes); the hosts differ instead
+			host := fmt.Sprintf("127.0.%d.%d", 1+step/200, 2+step%200)
+			how = fmt.Sprintf("WithTCPListener(%s,0)", host)
+			add("sc", p.val.(sock.Config).WithTCPListener(host, 0), pi, how).nsock = p.nsock + 1
 		case "mc":
 			mc := p.val.(wazero.ModuleConfig)
 			rec := p.mc.clone()
@@ -598,10 +615,10 @@ type keptGuest struct {
 
 var heldObs *keptGuest
 
-func observeMC(res *sim.Result, rt any, n *node, idx int, after string, stdouts []*bytes.Buffer, withSock, namedBinary bool) bool {
+func observeMC(res *sim.Result, rt any, n *node, idx int, after string, stdouts []*bytes.Buffer, sockNode *node, namedBinary bool) bool {
 	rec := n.mc
 	mc := n.val.(wazero.ModuleConfig)
-	g, err := newGuestKeepName(mc, rt, withSock, namedBinary)
+	g, err := newGuestKeepName(mc, rt, sockNode, namedBinary)
 	if err != nil {
 		res.Fail("config-observation", "after %s: instantiating with node %d (%s) failed: %v", after, idx, n.how, err)
 		return false
@@ -695,8 +712,10 @@ func observeMC(res *sim.Result, rt any, n *node, idx int, after string, stdouts 
 			wantPre = append(wantPre, gp)
 		}
 	}
-	if withSock {
-		wantPre = append(wantPre, "") // the TCP listener of THIS instantiation's context
+	if sockNode != nil {
+		for k := 0; k < sockNode.nsock; k++ {
+			wantPre = append(wantPre, "") // the TCP listeners of THIS instantiation's context
+		}
 	}
 	if strings.Join(pre, "\x00") != strings.Join(wantPre, "\x00") {
 		return fail("preopen names %q, model has %q", pre, wantPre)
@@ -874,14 +893,14 @@ func (m *hookMem) Reallocate(size uint64) []byte {
 func (m *hookMem) Free() {}
 
 // newGuestKeepName instantiates the shim keeping the node's own name.
-func newGuestKeepName(mc wazero.ModuleConfig, rt any, withSock, namedBinary bool) (*w.Guest, error) {
+func newGuestKeepName(mc wazero.ModuleConfig, rt any, sockNode *node, namedBinary bool) (*w.Guest, error) {
 	e := rt.(interface {
 		InstantiateRaw(ctx context.Context, mc wazero.ModuleConfig) (api.Module, error)
 		InstantiateRawNamed(ctx context.Context, mc wazero.ModuleConfig) (api.Module, error)
 	})
 	ctx := context.Background()
-	if withSock {
-		ctx = sock.WithConfig(ctx, sock.NewConfig().WithTCPListener("127.0.0.1", 0))
+	if sockNode != nil {
+		ctx = sock.WithConfig(ctx, sockNode.val.(sock.Config))
 	}
 	if duringInstantiate != nil {
 		ctx = experimental.WithMemoryAllocator(ctx, experimental.MemoryAllocatorFunc(func(cap, max uint64) experimental.LinearMemory {
